@@ -1,4 +1,6 @@
 import OasisProofs.Helpers.MkvsChunkBasic
+import OasisProofs.Helpers.MkvsChunkTerm
+import OasisProofs.Helpers.MkvsChunkCover
 import OasisProofs.Helpers.MkvsUnique
 /-
 C12 — checkpoints restore to exactly the checkpointed state.
@@ -27,9 +29,16 @@ What is proved here and what is only checked:
     tree whatever bytes arrive, in any order, with duplicates, aborts and restarts; a wrong digest or a
     wrong proof imports nothing; when the restorer reports completion every chunk has been imported,
     hence (with cover) the database holds exactly the tree's nodes;
-  * `coverB` (every node is in some chunk) is a hypothesis of `restore_exact`, evaluated on every
-    generated case for both chunkers (model and real chunks); it is NOT proved for all trees here — that
-    needs the iterator's ordering correctness (sequential) and the `split`/`trim` invariants (parallel);
+  * proved: the parallel chunker terminates and every one of its chunks makes progress for every chunk
+    size (weight argument; more fuel never changes the chunk list). For the sequential chunker this needs
+    the iterator's ordering correctness and is validated by the correspondence only;
+  * proved for the parallel chunker, for all trees, chunk sizes and thread counts: its chunks cover the tree
+    (`par_chunks_cover`: obligations of a task = positions at and below its pending stack plus its path;
+    `nextChunk` covers or keeps them, `trim` drops only covered ones, `split` hands every one to a child),
+    hence `par_restore_exact`;
+  * for the sequential (deprecated) chunker `coverB` stays a hypothesis of `restore_exact`: it is evaluated
+    on every generated case (model and real chunks) but not proved for all trees — that needs the ordering
+    correctness of the byte-level iterator (`Seek`/`Next`);
   * determinism of the chunk list is by construction in the model (a function of tree, chunk size,
     threads); that the Go chunkers compute this function under every goroutine schedule is checked
     by the byte-exact correspondence and by repetition under GOMAXPROCS 1..16.
@@ -62,6 +71,22 @@ theorem chunk_verifies_partial {H : Bytes → Bytes} (hlen : ∀ x, (H x).length
   have := isProof_verifies hlen (annotate H T) hok hd c hp
   rw [annotate_hash] at this
   exact this
+
+/-- **Every chunk of the parallel chunker makes progress**, whatever the chunk size (0 and 1 byte
+included): `nextChunk` on a task that still has work strictly decreases the weight of its pending
+stack (`trim` and `split` never increase it). -/
+theorem par_chunk_progress (eh : Bytes) (size : Nat) (root : HTrie) (s : Subtree) (hp : s.pending ≠ []) :
+    wStack (nextChunk eh size root s).2.pending < wStack s.pending :=
+  nextChunkF_progress (parFuel root) eh size root s (by simp [parFuel]) hp
+
+/-- **The parallel chunker terminates**: the loops of the model carry fuel `parFuel root`; giving the
+rounds and the inner loops any amount of additional fuel yields the same chunk list, i.e. the loops
+end because all work is done, for every tree, chunk size and thread count. -/
+theorem par_chunking_terminates (eh : Bytes) (size threads : Nat) (root : HTrie) (k j : Nat) :
+    parLoopF (parFuel root + j) eh size threads root (parFuel root + k) [newSubtree root] =
+      parChunks eh size threads root := by
+  have h := parFuel_enough root
+  exact parLoopF_fuel_irrelevant eh size threads root _ _ _ _ _ (by omega) (by omega) (by omega) (by omega)
 
 /-- **A restored chunk imports only true nodes**: whatever bytes pass the digest check and the proof
 verification — honest, altered, from another checkpoint — everything written is a node of the
@@ -133,6 +158,46 @@ theorem restore_exact {H : Bytes → Bytes} (hinj : Function.Injective H) (hlen 
     unfold imported
     rw [List.getElem?_eq_getElem hi, hget]
     exact hxc
+
+/-- **The chunks of the parallel chunker cover the tree**: for every tree (within the verifier's depth
+bound), every chunk size (0 and 1 byte included) and every thread count, each node of the tree is
+materialised by some chunk — the node and all its ancestors are in that chunk's proof. -/
+theorem par_chunks_cover {H : Bytes → Bytes} (hlen : ∀ x, (H x).length = 32)
+    (T : Trie) (hwf : WF T) (hb : ContentsBounded T.toList)
+    (hd : (annotate H T).ptrDepth ≤ maxProofDepth) (size threads : Nat) :
+    coverB H (hashWith H T) T (parChunks (H []) size threads (annotate H T)) = true := by
+  have hok := annotate_ok H (wfAt_bounded hwf hb)
+  simp only [coverB, List.all_eq_true, List.contains_iff_mem, List.mem_flatMap]
+  intro h hh
+  rw [← annotate_erase H T] at hh
+  obtain ⟨pos, hpos, hph⟩ := nodeHashes_positions (annotate H T) [] hok h hh
+  obtain ⟨incl, hincl, hcov⟩ := par_positions_covered (H []) size threads (annotate H T) pos hpos
+  refine ⟨buildFrom 0 incl (annotate H T), ?_, ?_⟩
+  · simp only [parChunks, parLoop, parLoopF_eq_map, List.mem_map]
+    exact ⟨incl, hincl, rfl⟩
+  · have hv := verifyProof_build hlen 0 (by omega) incl (annotate H T) hok
+    rw [annotate_hash] at hv
+    unfold build at hv
+    rw [if_pos (Nat.le_trans (proofDepth_le_ptrDepth _ _ _) hd)] at hv
+    simp only [chunkNodes, annotate_hash] at hv ⊢
+    rw [hv]
+    exact covered_restrict incl (annotate H T) [] hok pos hpos hcov.1
+      (fun a ha => hcov.2 a (by simpa using ha)) h hph
+
+/-- **Checkpoints of the parallel chunker restore to exactly the checkpointed tree**: `restore_exact`
+with the cover hypothesis discharged — any chunk size, any thread count, any restore session (order,
+duplicates, corrupted attempts, aborts and restarts) that ends with the restorer reporting completion
+leaves exactly the node set of the tree in the database. -/
+theorem par_restore_exact {H : Bytes → Bytes} (hinj : Function.Injective H) (hlen : ∀ x, (H x).length = 32)
+    (T : Trie) (hwf : WF T) (hb : ContentsBounded T.toList)
+    (hd : (annotate H T).ptrDepth ≤ maxProofDepth) (size threads : Nat)
+    (evs : List REvent) (hev : ∀ e ∈ evs, HonestEvent (parChunks (H []) size threads (annotate H T)) e)
+    (idx : Nat) (c : ChunkData)
+    (hc : c.digestOk = true → c.entries = (parChunks (H []) size threads (annotate H T))[idx]?)
+    (hdone : (rsRestoreChunk H (hashWith H T) (rsRun H (hashWith H T) {} evs) idx c).1 = .ok true) :
+    (∀ x ∈ (rsRestoreChunk H (hashWith H T) (rsRun H (hashWith H T) {} evs) idx c).2.db, x ∈ T.nodeHashes H) ∧
+    (∀ x ∈ T.nodeHashes H, x ∈ (rsRestoreChunk H (hashWith H T) (rsRun H (hashWith H T) {} evs) idx c).2.db) :=
+  restore_exact hinj hlen T hwf hb _ (par_chunks_cover hlen T hwf hb hd size threads) evs hev idx c hc hdone
 
 /-! ### Non-vacuity -/
 
